@@ -10,6 +10,7 @@ CONSTANTS
   EstOf <- EstL1
   WithConsumer = FALSE
   WithSweeper = FALSE
+  KeepHist = FALSE
 INVARIANT NoViolation
 INVARIANT Inv_C01
 INVARIANT Inv_TypeOK
